@@ -7,6 +7,7 @@ mod refcodec;
 mod rng;
 mod simnet;
 mod simrt;
+mod sut;
 
 use crate::core::Tier;
 
@@ -65,8 +66,9 @@ fn main() {
                     let seed = core::scenario_seed(base_seed(), sc.name(), i);
                     let plan = sc.generate(seed, i, Tier::Quick);
                     let ex = sc.execute(&plan, false);
+                    let pj = if std::env::var("WTSIM_HASHES_PLAN").is_ok() { format!(" plan={plan}") } else { String::new() };
                     format!(
-                        "{} {} {} {:016x} {:016x} {:?} sent={} probes={:?}",
+                        "{} {} {} {:016x} {:016x} {:?} sent={} probes={:?}{pj}",
                         id,
                         sc.name(),
                         i,
